@@ -434,3 +434,21 @@ func handshakesDelivered(w *Wire) (attempts, delivered int) {
 	}
 	return
 }
+
+// Result returns the request's result document, decoding the HTTP body when the request went through the handler.
+func (o *ReqOutcome) Result() (*result.Results, error) {
+	if o.Err != nil {
+		return nil, o.Err
+	}
+	if o.Res != nil {
+		return o.Res, nil
+	}
+	if len(o.Body) > 0 {
+		var res result.Results
+		if err := json.Unmarshal(o.Body, &res); err != nil {
+			return nil, err
+		}
+		return &res, nil
+	}
+	return nil, errors.New("no result")
+}
